@@ -11,7 +11,7 @@ from ..core import EventLog, Result, SimFault, SimBudget, HarnessError, choice, 
 from ..families import sample_config, make_data, make_affinity, build_model, FAMILIES, config_signature
 from ..refs import mlcl_accepts
 from ..seams import World, ModelHarness
-from .common import sample_sched, exc_site, is_harness_frame, quiet, sample_prefix, second_dataset, run_generic_op
+from .common import sample_sched, exc_site, is_harness_frame, quiet, sample_prefix, second_dataset, run_generic_op, decorate
 
 PROPERTY = "C14"
 KEY_EVENT = "BATCH"     # the seam this scenario depends on: it must fire somewhere in a batch of runs
@@ -182,6 +182,11 @@ def generate(rng):
             case["second"] = sample_constraints(rng, cfg["n"], max_pairs=3)
     cfg["case"] = case
     cfg["n2"] = cfg["n"] if rng.random() < 0.6 else cfg["n"] + rng.randint(1, 5)
+    if not case.get("validation_only") and rng.random() < 0.1:
+        # two tasks: a SECOND decorated estimator (own object, own data, own pairs) is trained by another task; the scheduler
+        # runs its whole fit between "batch yielded" and "gradient computed" of the at-th step of the estimator under test
+        from .common import sample_constraints
+        case["bystander"] = {"at": rng.randint(0, 5), "deco": sample_constraints(rng, cfg["n2"], max_pairs=3)}
     faults = {"sched": sample_sched(rng, decorated=True), "opt": weighted(rng, [("real", 4), ("identity", 1)])}
     # the decorated object lives through a history: earlier / interrupted / rejected fits, parameter changes, other data
     ops = [{"op": "decorate"}] + sample_prefix(rng, cfg, p_any=0.5, allow_path=True) + [{"op": "fit", "data": 0}]
@@ -287,7 +292,35 @@ def execute(record):
             h.wrap_batchify()
             outer_inner = model._compute_grads   # the (outermost) decorator's intercept_grads
 
+            by = case.get("bystander")
+            step_no = [0]
+
+            def run_bystander():
+                import copy as _cp
+                c2 = _cp.deepcopy(cfg)
+                c2["params"]["random_state"] = int(c2["params"].get("random_state") or 0) + 1
+                c2["params"]["verbose"] = False
+                Xo, Ao = second_dataset(cfg)
+                other = build_model(c2, log)
+                try:
+                    decorate(other, by["deco"])
+                    log.emit("TASK", task="bystander", phase="begin")
+                    other.fit(Xo, Ao)
+                    log.emit("TASK", task="bystander", phase="end")
+                    res.fault("interleaved_second_estimator_fit")
+                except (SimFault, SimBudget):
+                    raise
+                except Exception as e:
+                    if is_harness_frame(e):
+                        raise
+                    res.probe("bystander_raised:" + type(e).__name__)
+
             def outer_cg(Xb, y_pred, gradient):
+                if by is not None and step_no[0] == by["at"]:
+                    step_no[0] += 1
+                    run_bystander()
+                else:
+                    step_no[0] += 1
                 _, Ab_now, ids_now = h.resolve(Xb)
                 ids = list(ids_now)
                 if any(i < 0 for i in ids):
